@@ -18,8 +18,21 @@ func y(addr unsafe.Pointer) {
 		}
 		return
 	}
+	if !simrt.Active() {
+		return
+	}
+	k.NoteAtomic(uintptr(addr))
 	if k.YieldAtomics() {
 		simrt.Yield(simrt.KAtomic, uintptr(addr))
+	}
+}
+
+// w is called after an operation that may have modified the word: spin-waiters on it may retry.
+//
+//go:norace
+func w(addr unsafe.Pointer) {
+	if k := simrt.K; k != nil && simrt.Active() {
+		k.Notify(uintptr(addr))
 	}
 }
 
@@ -29,24 +42,28 @@ func y(addr unsafe.Pointer) {
 //go:norace
 func AddInt32(addr *int32, delta int32) int32 {
 	y(unsafe.Pointer(addr))
+	defer w(unsafe.Pointer(addr))
 	return atomic.AddInt32(addr, delta)
 }
 
 //go:norace
 func AddInt64(addr *int64, delta int64) int64 {
 	y(unsafe.Pointer(addr))
+	defer w(unsafe.Pointer(addr))
 	return atomic.AddInt64(addr, delta)
 }
 
 //go:norace
 func AddUint32(addr *uint32, delta uint32) uint32 {
 	y(unsafe.Pointer(addr))
+	defer w(unsafe.Pointer(addr))
 	return atomic.AddUint32(addr, delta)
 }
 
 //go:norace
 func AddUint64(addr *uint64, delta uint64) uint64 {
 	y(unsafe.Pointer(addr))
+	defer w(unsafe.Pointer(addr))
 	return atomic.AddUint64(addr, delta)
 }
 
@@ -63,50 +80,79 @@ func LoadUint32(addr *uint32) uint32 { y(unsafe.Pointer(addr)); return atomic.Lo
 func LoadUint64(addr *uint64) uint64 { y(unsafe.Pointer(addr)); return atomic.LoadUint64(addr) }
 
 //go:norace
-func StoreInt32(addr *int32, v int32) { y(unsafe.Pointer(addr)); atomic.StoreInt32(addr, v) }
+func StoreInt32(addr *int32, v int32) {
+	y(unsafe.Pointer(addr))
+	defer w(unsafe.Pointer(addr))
+	atomic.StoreInt32(addr, v)
+}
 
 //go:norace
-func StoreInt64(addr *int64, v int64) { y(unsafe.Pointer(addr)); atomic.StoreInt64(addr, v) }
+func StoreInt64(addr *int64, v int64) {
+	y(unsafe.Pointer(addr))
+	defer w(unsafe.Pointer(addr))
+	atomic.StoreInt64(addr, v)
+}
 
 //go:norace
-func StoreUint32(addr *uint32, v uint32) { y(unsafe.Pointer(addr)); atomic.StoreUint32(addr, v) }
+func StoreUint32(addr *uint32, v uint32) {
+	y(unsafe.Pointer(addr))
+	defer w(unsafe.Pointer(addr))
+	atomic.StoreUint32(addr, v)
+}
 
 //go:norace
-func StoreUint64(addr *uint64, v uint64) { y(unsafe.Pointer(addr)); atomic.StoreUint64(addr, v) }
+func StoreUint64(addr *uint64, v uint64) {
+	y(unsafe.Pointer(addr))
+	defer w(unsafe.Pointer(addr))
+	atomic.StoreUint64(addr, v)
+}
 
 //go:norace
-func SwapInt32(addr *int32, v int32) int32 { y(unsafe.Pointer(addr)); return atomic.SwapInt32(addr, v) }
+func SwapInt32(addr *int32, v int32) int32 {
+	y(unsafe.Pointer(addr))
+	defer w(unsafe.Pointer(addr))
+	return atomic.SwapInt32(addr, v)
+}
 
 //go:norace
-func SwapInt64(addr *int64, v int64) int64 { y(unsafe.Pointer(addr)); return atomic.SwapInt64(addr, v) }
+func SwapInt64(addr *int64, v int64) int64 {
+	y(unsafe.Pointer(addr))
+	defer w(unsafe.Pointer(addr))
+	return atomic.SwapInt64(addr, v)
+}
 
 //go:norace
 func SwapUint32(addr *uint32, v uint32) uint32 {
 	y(unsafe.Pointer(addr))
+	defer w(unsafe.Pointer(addr))
 	return atomic.SwapUint32(addr, v)
 }
 
 //go:norace
 func CompareAndSwapInt32(addr *int32, old, new int32) bool {
 	y(unsafe.Pointer(addr))
+	defer w(unsafe.Pointer(addr))
 	return atomic.CompareAndSwapInt32(addr, old, new)
 }
 
 //go:norace
 func CompareAndSwapInt64(addr *int64, old, new int64) bool {
 	y(unsafe.Pointer(addr))
+	defer w(unsafe.Pointer(addr))
 	return atomic.CompareAndSwapInt64(addr, old, new)
 }
 
 //go:norace
 func CompareAndSwapUint32(addr *uint32, old, new uint32) bool {
 	y(unsafe.Pointer(addr))
+	defer w(unsafe.Pointer(addr))
 	return atomic.CompareAndSwapUint32(addr, old, new)
 }
 
 //go:norace
 func CompareAndSwapUint64(addr *uint64, old, new uint64) bool {
 	y(unsafe.Pointer(addr))
+	defer w(unsafe.Pointer(addr))
 	return atomic.CompareAndSwapUint64(addr, old, new)
 }
 
@@ -119,18 +165,21 @@ func LoadPointer(addr *unsafe.Pointer) unsafe.Pointer {
 //go:norace
 func StorePointer(addr *unsafe.Pointer, v unsafe.Pointer) {
 	y(unsafe.Pointer(addr))
+	defer w(unsafe.Pointer(addr))
 	atomic.StorePointer(addr, v)
 }
 
 //go:norace
 func SwapPointer(addr *unsafe.Pointer, v unsafe.Pointer) unsafe.Pointer {
 	y(unsafe.Pointer(addr))
+	defer w(unsafe.Pointer(addr))
 	return atomic.SwapPointer(addr, v)
 }
 
 //go:norace
 func CompareAndSwapPointer(addr *unsafe.Pointer, old, new unsafe.Pointer) bool {
 	y(unsafe.Pointer(addr))
+	defer w(unsafe.Pointer(addr))
 	return atomic.CompareAndSwapPointer(addr, old, new)
 }
 
@@ -140,13 +189,21 @@ type Bool struct{ v atomic.Bool }
 func (b *Bool) Load() bool { y(unsafe.Pointer(b)); return b.v.Load() }
 
 //go:norace
-func (b *Bool) Store(x bool) { y(unsafe.Pointer(b)); b.v.Store(x) }
+func (b *Bool) Store(x bool) { y(unsafe.Pointer(b)); defer w(unsafe.Pointer(b)); b.v.Store(x) }
 
 //go:norace
-func (b *Bool) Swap(x bool) bool { y(unsafe.Pointer(b)); return b.v.Swap(x) }
+func (b *Bool) Swap(x bool) bool {
+	y(unsafe.Pointer(b))
+	defer w(unsafe.Pointer(b))
+	return b.v.Swap(x)
+}
 
 //go:norace
-func (b *Bool) CompareAndSwap(o, n bool) bool { y(unsafe.Pointer(b)); return b.v.CompareAndSwap(o, n) }
+func (b *Bool) CompareAndSwap(o, n bool) bool {
+	y(unsafe.Pointer(b))
+	defer w(unsafe.Pointer(b))
+	return b.v.CompareAndSwap(o, n)
+}
 
 type Int32 struct{ v atomic.Int32 }
 
@@ -154,17 +211,26 @@ type Int32 struct{ v atomic.Int32 }
 func (b *Int32) Load() int32 { y(unsafe.Pointer(b)); return b.v.Load() }
 
 //go:norace
-func (b *Int32) Store(x int32) { y(unsafe.Pointer(b)); b.v.Store(x) }
+func (b *Int32) Store(x int32) { y(unsafe.Pointer(b)); defer w(unsafe.Pointer(b)); b.v.Store(x) }
 
 //go:norace
-func (b *Int32) Add(x int32) int32 { y(unsafe.Pointer(b)); return b.v.Add(x) }
+func (b *Int32) Add(x int32) int32 {
+	y(unsafe.Pointer(b))
+	defer w(unsafe.Pointer(b))
+	return b.v.Add(x)
+}
 
 //go:norace
-func (b *Int32) Swap(x int32) int32 { y(unsafe.Pointer(b)); return b.v.Swap(x) }
+func (b *Int32) Swap(x int32) int32 {
+	y(unsafe.Pointer(b))
+	defer w(unsafe.Pointer(b))
+	return b.v.Swap(x)
+}
 
 //go:norace
 func (b *Int32) CompareAndSwap(o, n int32) bool {
 	y(unsafe.Pointer(b))
+	defer w(unsafe.Pointer(b))
 	return b.v.CompareAndSwap(o, n)
 }
 
@@ -174,17 +240,26 @@ type Int64 struct{ v atomic.Int64 }
 func (b *Int64) Load() int64 { y(unsafe.Pointer(b)); return b.v.Load() }
 
 //go:norace
-func (b *Int64) Store(x int64) { y(unsafe.Pointer(b)); b.v.Store(x) }
+func (b *Int64) Store(x int64) { y(unsafe.Pointer(b)); defer w(unsafe.Pointer(b)); b.v.Store(x) }
 
 //go:norace
-func (b *Int64) Add(x int64) int64 { y(unsafe.Pointer(b)); return b.v.Add(x) }
+func (b *Int64) Add(x int64) int64 {
+	y(unsafe.Pointer(b))
+	defer w(unsafe.Pointer(b))
+	return b.v.Add(x)
+}
 
 //go:norace
-func (b *Int64) Swap(x int64) int64 { y(unsafe.Pointer(b)); return b.v.Swap(x) }
+func (b *Int64) Swap(x int64) int64 {
+	y(unsafe.Pointer(b))
+	defer w(unsafe.Pointer(b))
+	return b.v.Swap(x)
+}
 
 //go:norace
 func (b *Int64) CompareAndSwap(o, n int64) bool {
 	y(unsafe.Pointer(b))
+	defer w(unsafe.Pointer(b))
 	return b.v.CompareAndSwap(o, n)
 }
 
@@ -194,14 +269,19 @@ type Uint32 struct{ v atomic.Uint32 }
 func (b *Uint32) Load() uint32 { y(unsafe.Pointer(b)); return b.v.Load() }
 
 //go:norace
-func (b *Uint32) Store(x uint32) { y(unsafe.Pointer(b)); b.v.Store(x) }
+func (b *Uint32) Store(x uint32) { y(unsafe.Pointer(b)); defer w(unsafe.Pointer(b)); b.v.Store(x) }
 
 //go:norace
-func (b *Uint32) Add(x uint32) uint32 { y(unsafe.Pointer(b)); return b.v.Add(x) }
+func (b *Uint32) Add(x uint32) uint32 {
+	y(unsafe.Pointer(b))
+	defer w(unsafe.Pointer(b))
+	return b.v.Add(x)
+}
 
 //go:norace
 func (b *Uint32) CompareAndSwap(o, n uint32) bool {
 	y(unsafe.Pointer(b))
+	defer w(unsafe.Pointer(b))
 	return b.v.CompareAndSwap(o, n)
 }
 
@@ -211,14 +291,19 @@ type Uint64 struct{ v atomic.Uint64 }
 func (b *Uint64) Load() uint64 { y(unsafe.Pointer(b)); return b.v.Load() }
 
 //go:norace
-func (b *Uint64) Store(x uint64) { y(unsafe.Pointer(b)); b.v.Store(x) }
+func (b *Uint64) Store(x uint64) { y(unsafe.Pointer(b)); defer w(unsafe.Pointer(b)); b.v.Store(x) }
 
 //go:norace
-func (b *Uint64) Add(x uint64) uint64 { y(unsafe.Pointer(b)); return b.v.Add(x) }
+func (b *Uint64) Add(x uint64) uint64 {
+	y(unsafe.Pointer(b))
+	defer w(unsafe.Pointer(b))
+	return b.v.Add(x)
+}
 
 //go:norace
 func (b *Uint64) CompareAndSwap(o, n uint64) bool {
 	y(unsafe.Pointer(b))
+	defer w(unsafe.Pointer(b))
 	return b.v.CompareAndSwap(o, n)
 }
 
@@ -228,14 +313,19 @@ type Value struct{ v atomic.Value }
 func (b *Value) Load() interface{} { y(unsafe.Pointer(b)); return b.v.Load() }
 
 //go:norace
-func (b *Value) Store(x interface{}) { y(unsafe.Pointer(b)); b.v.Store(x) }
+func (b *Value) Store(x interface{}) { y(unsafe.Pointer(b)); defer w(unsafe.Pointer(b)); b.v.Store(x) }
 
 //go:norace
-func (b *Value) Swap(x interface{}) interface{} { y(unsafe.Pointer(b)); return b.v.Swap(x) }
+func (b *Value) Swap(x interface{}) interface{} {
+	y(unsafe.Pointer(b))
+	defer w(unsafe.Pointer(b))
+	return b.v.Swap(x)
+}
 
 //go:norace
 func (b *Value) CompareAndSwap(o, n interface{}) bool {
 	y(unsafe.Pointer(b))
+	defer w(unsafe.Pointer(b))
 	return b.v.CompareAndSwap(o, n)
 }
 
@@ -245,13 +335,18 @@ type Pointer[T any] struct{ v atomic.Pointer[T] }
 func (b *Pointer[T]) Load() *T { y(unsafe.Pointer(b)); return b.v.Load() }
 
 //go:norace
-func (b *Pointer[T]) Store(x *T) { y(unsafe.Pointer(b)); b.v.Store(x) }
+func (b *Pointer[T]) Store(x *T) { y(unsafe.Pointer(b)); defer w(unsafe.Pointer(b)); b.v.Store(x) }
 
 //go:norace
-func (b *Pointer[T]) Swap(x *T) *T { y(unsafe.Pointer(b)); return b.v.Swap(x) }
+func (b *Pointer[T]) Swap(x *T) *T {
+	y(unsafe.Pointer(b))
+	defer w(unsafe.Pointer(b))
+	return b.v.Swap(x)
+}
 
 //go:norace
 func (b *Pointer[T]) CompareAndSwap(o, n *T) bool {
 	y(unsafe.Pointer(b))
+	defer w(unsafe.Pointer(b))
 	return b.v.CompareAndSwap(o, n)
 }
